@@ -179,6 +179,48 @@ func RunBrace(c *core.Ctx) {
 			}
 		}
 	}
+	// string-building helpers: the texts a helper can return must agree in brace/paren balance
+	{
+		var hs []*braceFn
+		for _, bf := range e.fns {
+			sig := bf.obj.Type().(*types.Signature)
+			if sig.Results().Len() == 1 && types.Identical(sig.Results().At(0).Type(), types.Typ[types.String]) {
+				hs = append(hs, bf)
+			}
+		}
+		sort.Slice(hs, func(i, j int) bool { return hs[i].obj.FullName() < hs[j].obj.FullName() })
+		for _, bf := range hs {
+			type rt struct {
+				text string
+				line int
+			}
+			var texts []rt
+			ast.Inspect(bf.decl.Body, func(n ast.Node) bool {
+				if _, ok := n.(*ast.FuncLit); ok {
+					return false
+				}
+				if rs, ok := n.(*ast.ReturnStmt); ok && len(rs.Results) == 1 {
+					if s, ok := e.textOf(bf.pkg, rs.Results[0], 1); ok {
+						texts = append(texts, rt{s, bf.pkg.Fset.Position(rs.Pos()).Line})
+					}
+				}
+				return true
+			})
+			if len(texts) < 2 {
+				continue
+			}
+			name := strings.TrimPrefix(bf.obj.FullName(), core.RepoModule+"/")
+			bad := ""
+			for _, t := range texts[1:] {
+				if lexDelta(t.text) != lexDelta(texts[0].text) {
+					bad = fmt.Sprintf("%q (line %d) vs %q (line %d)", texts[0].text, texts[0].line, t.text, t.line)
+					break
+				}
+			}
+			c.Check(bad == "", "T.brace", name+" returned texts", fmt.Sprintf("%d returned texts have the same brace/paren balance", len(texts)),
+				"the code fragments this helper returns differ in brace/paren balance: "+bad, c.PosStr(bf.pkg.Fset, bf.decl.Pos()), src)
+		}
+	}
 	var list []*braceFn
 	for _, bf := range e.fns {
 		if bf.emits {
@@ -605,14 +647,83 @@ func (w *bwalker) calls(n ast.Node, in dset) dset {
 // names and numbers in the template packages; a string variable initialised in
 // this function from a constant is expanded so its braces are counted.
 func (w *bwalker) placeholder(a ast.Expr) string {
-	if id, ok := ast.Unparen(a).(*ast.Ident); ok {
+	a = ast.Unparen(a)
+	if id, ok := a.(*ast.Ident); ok {
 		if o := w.info.ObjectOf(id); o != nil {
 			if s, ok := w.localConst(o); ok {
 				return s
 			}
 		}
 	}
+	if s, ok := w.e.textOf(w.bf.pkg, a, 0); ok {
+		return s
+	}
 	return "X"
+}
+
+// textOf gives the brace-relevant text of a string expression built by fmt.Sprintf from a constant format
+// (verbs stand for identifiers, type names and numbers), by concatenation, or by a template-package function
+// all of whose returns are such expressions with one and the same brace/paren balance.
+func (e *braceEngine) textOf(pkg *packages.Package, x ast.Expr, depth int) (string, bool) {
+	if depth > 3 {
+		return "", false
+	}
+	x = ast.Unparen(x)
+	if s, ok := e.constStr(pkg, x); ok {
+		return s, true
+	}
+	switch t := x.(type) {
+	case *ast.BinaryExpr:
+		if t.Op == token.ADD {
+			l, ok1 := e.textOf(pkg, t.X, depth)
+			r, ok2 := e.textOf(pkg, t.Y, depth)
+			if !ok1 {
+				l = "X"
+			}
+			if !ok2 {
+				r = "X"
+			}
+			if ok1 || ok2 {
+				return l + r, true
+			}
+		}
+	case *ast.CallExpr:
+		o := core.CalleeObj(pkg.TypesInfo, t)
+		if core.QualName(o) == "fmt.Sprintf" && len(t.Args) >= 1 {
+			if f, ok := e.constStr(pkg, t.Args[0]); ok {
+				return f, true
+			}
+		}
+		if f, ok := o.(*types.Func); ok {
+			if bf := e.fns[f]; bf != nil && bf.decl != nil && bf.decl.Body != nil {
+				var texts []string
+				all := true
+				ast.Inspect(bf.decl.Body, func(n ast.Node) bool {
+					if _, ok := n.(*ast.FuncLit); ok {
+						return false
+					}
+					if rs, ok := n.(*ast.ReturnStmt); ok && len(rs.Results) == 1 {
+						if s, ok := e.textOf(bf.pkg, rs.Results[0], depth+1); ok {
+							texts = append(texts, s)
+						} else {
+							all = false
+						}
+					}
+					return true
+				})
+				if all && len(texts) > 0 {
+					d0 := lexDelta(texts[0])
+					for _, s := range texts[1:] {
+						if lexDelta(s) != d0 {
+							return "", false
+						}
+					}
+					return texts[0], true
+				}
+			}
+		}
+	}
+	return "", false
 }
 
 func (w *bwalker) localConst(o types.Object) (string, bool) {
@@ -625,7 +736,7 @@ func (w *bwalker) localConst(o types.Object) (string, bool) {
 		}
 		for i, l := range as.Lhs {
 			if id, ok := l.(*ast.Ident); ok && w.info.ObjectOf(id) == o && i < len(as.Rhs) {
-				if s, ok := w.e.constStr(w.bf.pkg, as.Rhs[i]); ok && !found {
+				if s, ok := w.e.textOf(w.bf.pkg, as.Rhs[i], 1); ok && !found {
 					val, found = s, true
 				} else {
 					multi = true
